@@ -29,7 +29,7 @@ ASSUMPTIONS = [
 ]
 BUDGET = {"quick": {"examples": 8000, "shrink": 300}, "thorough": {"examples": 480000, "shrink": 2000}}
 INF = 0xFFFFFF
-INST = [(0x4000, 1, 1, 7), (0x4000, 2, 1, 0), (0x4000, 1, 2, 7)]
+INST = [(0x4000, 0x0101, 1, 0x10007), (0x4000, 0x0102, 1, 0x300), (0x4000, 0x0101, 2, 0x10007)]
 W = (None, 0xFFFF, 0xFF, 0xFFFFFFFF)
 
 when_st = st.one_of(
@@ -78,9 +78,9 @@ def fixed_cases(tier):
                     {"tm": tm, "n": 2, "fr": [1.0], "steps": [{"op": "start", "when": ["d", 0.01]}, dict(f, when=["d", 1.0]), {"op": "stop", "when": ["d", 0.05]}, {"op": "wait", "when": ["d", 1.0]}]},
                 ]
                 # every wildcard combination against 3 instances in the main phase
-                for inst in (1, 0xFFFF, 3):
+                for inst in (0x0101, 0xFFFF, 3):
                     for major in (1, 0xFF, 9):
-                        for minor in (7, 0xFFFFFFFF, 1):
+                        for minor in (0x10007, 0xFFFFFFFF, 1):
                             out.append({"tm": tm, "n": 3, "fr": [0.0], "steps": [{"op": "start", "when": ["d", 0.01]}, {"op": "find", "mc": mc, "src": 1, "f": [0x4000, inst, major, minor], "when": ["d", 1.0]},
                                                                                   {"op": "wait", "when": ["d", 0.5]}]})
     return out
